@@ -148,19 +148,26 @@ theorem C13_scrub_releases (s : St) (k : Nat) (rest : List Nat) (hr : s.drv = .r
 
 /-- Abandon: an AbandonRequest naming the given ID goes out; that ID and the Abandon's own ID are
 released; routing state for the abandoned ID is gone; a caller still waiting on the abandoned
-operation is released with an error. -/
+operation is released with an error (its reply slot is no longer empty: last clause). -/
 theorem C13_abandon (s : St) (i : Nat) (rest : List Nat) (o : Op) (t : Nat) (hr : s.drv = .running)
     (hq : s.opQ = i :: rest) (ho : s.ops[i]? = some o) (hk : o.kind = .abandon (t : Int))
     (hin : s.inUse.contains o.id = true) :
     ∃ s', step s (.drvOp true) = some (s', .none) ∧
       s'.wire = s.wire ++ [(o.id, .abandon (t : Int))] ∧ t ∉ s'.inUse ∧ o.id ∉ s'.inUse ∧
-      lookup s'.resultmap t = none ∧ lookup s'.searchmap t = none := by
+      lookup s'.resultmap t = none ∧ lookup s'.searchmap t = none ∧
+      (∀ j, lookup s.resultmap t = some j → j ≠ i → ∀ oj : Op, s'.ops[j]? = some oj → oj.mail ≠ .empty) := by
   have hne : (s.drv ≠ .running) = False := by simp [hr]
   simp only [step, hne, if_false, hq, ho, hk, hin, Bool.not_true, Bool.false_eq_true]
-  refine ⟨_, rfl, by simp, not_mem_eraseId _ _, ?_, lookup_erase_self _ _, lookup_erase_self _ _⟩
-  intro hmem
-  have := (mem_eraseId.mp hmem).1
-  exact not_mem_eraseId _ _ this
+  refine ⟨_, rfl, by simp, not_mem_eraseId _ _, ?_, lookup_erase_self _ _, lookup_erase_self _ _, ?_⟩
+  · intro hmem
+    have := (mem_eraseId.mp hmem).1
+    exact not_mem_eraseId _ _ this
+  · -- the caller still waiting on the abandoned operation finds "sender dropped" in its reply slot
+    intro j hj hji oj hoj
+    simp only at hoj
+    rw [modifyOp_get, if_neg hji, hj] at hoj
+    simp only [dropSenderOpt] at hoj
+    exact dropSender_mail _ _ _ hoj
 
 /-- a request whose ID was released while it waited in the queue is discarded: nothing is sent,
 nothing is registered (fix F15) -/
